@@ -199,6 +199,7 @@ func AppendFloat(b []byte, f float64, prec int) []byte {
 		b[i] = '-'
 		i++
 	}
+	first := i
 
 	// big conversion loop, start at the end and move to the front
 	// initially print trailing zeros and remove them later on
@@ -259,10 +260,11 @@ func AppendFloat(b []byte, f float64, prec int) []byte {
 
 	// exponent
 	if exp != 0 {
-		if exp == 1 {
+		hasDot := first <= dot && dot < i // appending zeros is only valid for an integer mantissa
+		if exp == 1 && !hasDot {
 			b[i] = '0'
 			i++
-		} else if exp == 2 {
+		} else if exp == 2 && !hasDot {
 			b[i] = '0'
 			b[i+1] = '0'
 			i += 2
